@@ -685,7 +685,7 @@ def o5_packed_buffer_linearity(prog):
     return r
 
 
-@rule('O6', props=['C05', 'C04', 'C01'], floor=1, configs=('all', 'default'))
+@rule('O6', props=['C05', 'C04', 'C01', 'C17'], floor=1, configs=('all', 'default'))
 def o6_adoption_guard(prog):
     """A column slot may be overwritten with the raw parts of a Vec that was NOT rebuilt from that slot
     (adoption of a caller's Vec) only on paths where the step has checked that the old column holds
@@ -723,7 +723,7 @@ def o6_adoption_guard(prog):
     return r
 
 
-@rule('O7', props=['C05', 'C04', 'C01', 'C13'], floor={'all': 15, 'default': 13}, configs=('all', 'default'))
+@rule('O7', props=['C05', 'C04', 'C01', 'C13', 'C17'], floor={'all': 15, 'default': 13}, configs=('all', 'default'))
 def o7_identifier_column(prog):
     """The archetype's identifier column obeys the same raw-parts discipline as the component columns: every
     Vec<entity::Identifier> rebuilt from `X.entity_identifiers` takes its pointer from `.0`, its capacity
